@@ -205,6 +205,8 @@ class Einsum(OpDef):
         return np.einsum(p["subs"], *a)
 
     def mg(self, mg, spell, a, p, kw):
+        if p.get("optimize"):
+            kw = dict(kw, optimize=True)
         if spell == "n" and not kw:
             return np.einsum(p["subs"], *a)
         return mg.einsum(p["subs"], *a, **kw)
